@@ -119,6 +119,31 @@ def stale_reply_new_call(rng, ident, hook, nth, how):
     return scn.line("scn", ident, s, extra="nt=1 family=stale-reply-new-call expect=%s" % ",".join(exp))
 
 
+def late_registration(rng, ident):
+    """a call / notification for a protocol that is not registered yet (answered not-found / dropped), then the protocol is
+    registered on the running transport: from then on every delivered request must reach the handler exactly once"""
+    s = []
+    pre = rng.choice(["call", "notify", "both"])
+    q = ("s", b"late")
+    if pre in ("call", "both"):
+        s += [scn.feed_call(40, 700, meth=b"late.m"), "settle"]
+    if pre in ("notify", "both"):
+        s += [scn.feed_notify(701, meth=b"late.m"), "settle"]
+    s += ["register/%s:%s" % (b"late".hex(), b"m".hex())]
+    inv = []
+    hid = 0
+    for i in range(1 + rng.below(3)):
+        if rng.chance(2, 3):
+            s += [scn.feed_call(41 + i, 710 + i, meth=b"late.m"), "waithandlers/%d" % (hid + 1), scn.finish(hid, 710 + i), "settle"]
+            inv.append("%d~%s~-" % (710 + i, T(scn.arg(710 + i))))
+        else:
+            s += [scn.feed_notify(710 + i, meth=b"late.m"), "waithandlers/%d" % (hid + 1), scn.finish(hid, 710 + i), "settle"]
+            inv.append("%d~%s~-" % (710 + i, T(scn.arg(710 + i))))
+        hid += 1
+    s += ["settle"]
+    return scn.line("scn", ident, s, extra="nt=1 quiescent=1 family=late-registration latemethods=6c6174652e6d expectinv=%s" % ",".join(inv))
+
+
 def explore(ctx):
     rng, tier = ctx["rng"], ctx["tier"]
     if ctx.get("replay"):
@@ -142,6 +167,8 @@ def explore(ctx):
                 for hook, nths in (("UnwrapMakeArg", [1]), ("UnwrapError", [1]), ("FrameRead", list(range(1, 8)))):
                     for nth in nths:
                         lines.append(stale_reply_new_call(rng, "r%d" % n, hook, nth, how)); n += 1
+        for _ in range({"quick": 10, "thorough": 100, "search": 20}[tier]):
+            lines.append(late_registration(rng, "g%d" % n)); n += 1
         for _ in range(2):
             lines.append(oversize_reply(rng, "o%d" % n)); n += 1
         for _ in range(6):
